@@ -127,7 +127,9 @@ func refMatch(p, u string) bool {
 		return a == b
 	}
 	for i := range ph {
-		if !one(ph[i], uh[i]) {
+		// host names are case-insensitive (RFC 3986): an engine that matches API.h.com to a filter on api.h.com
+		// reads the pattern in a defensible way - and must then have that traffic registered
+		if !one(ph[i], uh[i]) && !(!paramShaped(ph[i]) && strings.EqualFold(ph[i], uh[i])) {
 			return false
 		}
 	}
@@ -656,8 +658,21 @@ func genDerived(t *rapid.T, specs []spec) derived {
 		if i := strings.IndexByte(u, '/'); i > 0 {
 			u = u[:i] + "/" + u[i:]
 		}
-	default: // something else
-		u = rapid.SampledFrom(genHosts).Draw(t, "otherhost") + "/" + rapid.SampledFrom(plainSegs).Draw(t, "otherpath")
+	default: // something else: another URL, or the same URL with the host in another letter case
+		if rapid.Bool().Draw(t, "hostcase") {
+			i := strings.IndexByte(u+"/", '/')
+			host := u[:i]
+			if rapid.Bool().Draw(t, "whole") {
+				host = strings.ToUpper(host)
+			} else if j := strings.IndexByte(host, '.'); j > 0 {
+				host = strings.ToUpper(host[:j]) + host[j:]
+			} else {
+				host = strings.ToUpper(host[:1]) + host[1:]
+			}
+			u = host + u[i:]
+		} else {
+			u = rapid.SampledFrom(genHosts).Draw(t, "otherhost") + "/" + rapid.SampledFrom(plainSegs).Draw(t, "otherpath")
+		}
 	}
 	m := rapid.SampledFrom(allMethods).Draw(t, "method")
 	if len(s.Methods) > 0 && rapid.IntRange(0, 3).Draw(t, "ownmethod") > 0 {
